@@ -35,7 +35,23 @@ def any_message(op, P, A, ids, addr, fresh_id):
     raise ValueError(op)
 
 
+class _NotReadable:
+    completed = None
+
+    def __init__(self, exc):
+        self.exc = exc
+
+
 def reread(ro):
+    out = B.call(lambda: _reread(ro))
+    if out.raised:
+        # the classifier / parser refused the serialised running order: reported by the callers as
+        # "reads back as _NotReadable"
+        return _NotReadable(out.exc)
+    return out.result
+
+
+def _reread(ro):
     """Write out and read back.  Symbolic mode: a structure-preserving copy of the tree handed to
     the classifier (stdlib round-trip contract); replay: the real str() + from_string()."""
     if B.Ctx.replay:
@@ -95,6 +111,8 @@ def completion_cell(P, A):
                 # "still completed" after the round trip: it refuses every message as well
                 snap_b = B.snap(back.xml)
                 o = B.merge(back, any_message(op, P, A, ids, addr, A['n1']))
+                if B.Ctx.replay:
+                    B.note(reread_type=type(back).__name__)
                 if not (o.raised and type(o.exc) is MosCompletedMergeError):
                     sig = 'reread-accepts-merge-%s' % (type(o.exc).__name__ if o.raised else 'accepted')
                 elif B.snap(back.xml) != snap_b:
